@@ -135,7 +135,7 @@ func decryptOriginTokenRequest(nameKey PrivateEncapKey, requestKey []byte, encry
 
 	tokenRequest := &InnerTokenRequest{}
 	if !tokenRequest.Unmarshal(tokenRequestEnc) {
-		return InnerTokenRequest{}, nil, err
+		return InnerTokenRequest{}, nil, fmt.Errorf("malformed inner token request")
 	}
 
 	secret := context.Export([]byte("TokenResponse"), nameKey.suite.AEAD.KeySize())
